@@ -74,7 +74,7 @@ def run(m):
         if r.returncode != 0 or not os.path.exists(js):
             return dict(m, status="nocompile")
         short = re.sub(r"[\w\-]+/", "", m["func"])
-        pats = [short] if m["file"] != "channels/channels_fsm.go" else ["@lemmas"]
+        pats = [short] if m["file"] != "channels/channels_fsm.go" else ["@lemmas", short]
         out = ""
         for pat in pats:
             r = subprocess.run(["python3-vt", "-m", "gdtv.dev", js, pat], capture_output=True, text=True, env=ENV, timeout=900, cwd="/verif/engine")
